@@ -262,7 +262,9 @@ MANIFEST_ROWS = {
             "every application of a reused Operation object (to targets of different Fock dimensions, in different "
             "containers, with other operations constructed and applied in between) must give exactly the joint state the "
             "specification computes from (type, parameters) alone; descriptions of operation objects and digests of "
-            "user-supplied arrays must not change",
+            "user-supplied arrays must not change; off the lattice (Displace, Squeeze, Expresion, expressions over two Fock "
+            "spaces, random unitaries) twin executions -- one reused object per (type, parameters) vs a fresh object per "
+            "application -- must agree after every step (judged by CTwin.tla)",
             "lattice operators; the per-object description is what harness/tracer.py projects (type, parameter digest, "
             "accepted operand types)"),
     "C16": ("model_checking", _TECH, "5/C16",
